@@ -163,13 +163,15 @@ def show(n, depth=0):
         return "..."
     k = n.get("k")
     d = depth + 1
+    if n.get("_from"):          # normal form: a propagated temporary keeps its source name in reports
+        return n["_from"].split("@")[0]
     if k == "call":
         f = n.get("fn") or ("(*%s)" % show(n.get("ind"), d))
         return "%s(%s)" % (f, ", ".join(show(a, d) for a in n["args"]))
     if k == "mem":
         return "%s%s%s" % (show(n["b"], d), "->" if n.get("arrow") else ".", n["f"])
     if k == "var" or k == "fnref" or k == "enum":
-        return n["n"]
+        return n["n"].split("@")[0]
     if k == "int":
         if n.get("m") and n["m"][0] == "NULL":
             return "NULL"
@@ -271,6 +273,7 @@ class Function:
         self.ret = d.get("ret", "")
         self.params = d.get("params", [])
         self.cfg_failed = d.get("cfg_failed", False)
+        self.normalized = bool(d.get("inlined") or d.get("copyprop"))   # differs from the function as written
         self.blocks = {}
         self.entry = d.get("entry")
         self.exit = d.get("exit")
